@@ -100,6 +100,31 @@ CHECKS["C14"] = {
     "note": "Allocation accounting is gross (TotalAlloc delta, GC off). For packed streams one extra complete message before the error is tolerated (the packed reader reports a missing run-length byte on the next read).",
 }
 
+CHECKS["C10"] = {
+    "engine": "tlc",
+    "level": "model_checking",
+    "design_ref": "DESIGN.md section 4 C10, Appendix C, Appendix I",
+    "technique": "implementation-shaped TLA+ model of capability.go model-checked over all interleavings (design); property-level TLA+ spec ClientRefAbs used as trace specification: real multi-threaded executions under a gate scheduler at verif yield points are validated by TLC (linearisation points inferred)",
+    "text": "ClientRef (one action per critical section) is checked by TLC for 2-3 threads: no deadlock, no double close, no Shutdown while referenced or during a call, exact counts at quiescence; the variant with the unrepaired reference transfer must violate NoShutWhileReferenced (control). Binding: ~230 (quick) two-thread programs over AddRef/Release/Call/IsValid/WeakRef/WeakClient.AddRef/Fulfill are run on real Clients with instrumented hooks; schedules are enumerated depth-first at 16 yield points (before every lock acquisition / channel wait in capability.go, inside the hook's Send, at call boundaries); ~9k execution traces per run are accepted only if TLC finds a linearisation satisfying ClientRefAbs (Shutdown at most once, only with no live reference denoting the hook after following resolutions and no call inside, calls delivered to the denoted hook, results, obligations at quiescence).",
+    "note": "Schedules are bounded (<= 40/300 per program). A worker that does not reach a yield point within 3 ms is treated as blocked (affects exploration only). The documented guarantee that Fulfill returns after the promise hook's Shutdown is not part of the property and is checked at quiescence only.",
+}
+CHECKS["C11"] = {
+    "engine": "tlc",
+    "level": "model_checking",
+    "design_ref": "DESIGN.md section 4 C11, Appendix M",
+    "technique": "implementation-shaped TLA+ model of answer.go + proxy hook (design, with unrepaired variants as controls); property-level trace spec PromiseAbs validated by TLC on real executions under the gate scheduler; deadlocks reported from goroutine dumps with a frame signature",
+    "text": "Programs (a resolver thread: Fulfill/Reject/Join chains; caller threads: pipelined calls on two paths, repeated Future.Client, calls through pipelined clients, Struct/Done/ReleaseClients) run on real Promises with an instrumented pipeline caller and result capability; schedules enumerated at the yield points of answer.go and capability.go. TLC accepts a trace only if every call is delivered exactly once to the destination determined at its linearisation point (pipeline caller of the chain's last promise before resolution, else the capability at that path, else failure), resolution waits for calls handed to the pipeline caller, waiters return only after resolution. An execution in which no worker can move for 1 s is reported with the library frames it is stuck in.",
+    "note": "Known finding D17 (deadlock between resolve and a call through a pipelined client) is listed in known_findings.json by its frame signature. Borrowed clients used after ReleaseClients may fail (accepted).",
+}
+CHECKS["C12"] = {
+    "engine": "tlc",
+    "level": "model_checking",
+    "design_ref": "DESIGN.md section 4 C12, Appendix J",
+    "technique": "implementation-shaped TLA+ model of server.go (design); TLC-generated environment scripts replayed on a real server.Server; event log validated by TLC against the trace specification ServerTrace",
+    "text": "Server.tla (start gate, slot semaphore, full/drain, shutdown) is model-checked for 3-4 calls x 1-2 slots. ServerEnv enumerates scripts (3 concurrent invocations, ack / return ok|err / cancel, pipelined calls on acknowledged answers, Shutdown anywhere); 1000 (quick) sampled scripts run against the real server with MaxConcurrentCalls 1 and 2; TLC checks each event log: one started-and-unacknowledged call at a time, cap, start order consistent with Send returns, exactly one result per call equal to the implementation's, pipelined calls delivered in order only after a successful return, cancellation visible after Shutdown, user shutdown once after running calls returned, nothing starts afterwards.",
+    "note": "No hook needed (the implementation, callers, result capability and Shutdowner are harness code). Interleavings depend on timing jitter (seeded sleeps), not on a scheduler.",
+}
+
 NOT_APPLICABLE = {
     "C%02d" % i: "check not built yet in this session (planned, see DESIGN.md section 9); not claimed until its TLA+ spec and conformance harness exist" for i in range(1, 21)
 }
